@@ -10,7 +10,7 @@ from ..model import SCM
 from ..ref_id import G as RG
 from ..ref_id import identifiable
 from ..ref_sep import SepOracle
-from ..y0util import CallTrace, V, build_graph, graph_key, graph_sample
+from ..y0util import CallTrace, V, build_graph, graph_key, graph_sample, one_or_many
 from .c01 import compare_estimand
 
 ID = "C03"
@@ -100,7 +100,8 @@ def check(case) -> Outcome:
     with CallTrace(id_c, ["rule_2_of_do_calculus_applies"]) as tr:
         tr.observe("rule_2_of_do_calculus_applies", lambda a, k, r: rule2.append(bool(r)))
         try:
-            est = identify_outcomes(graph, {V(x) for x in xs}, {V(y) for y in ys}, conditions={V(z) for z in zs})
+            k = len(g["nodes"]) + len(xs) + 2 * len(ys) + 4 * len(zs)
+            est = identify_outcomes(graph, one_or_many([V(x) for x in xs], k), one_or_many([V(y) for y in ys], k // 2), conditions=one_or_many([V(z) for z in zs], k // 4))
         except Exception as e:
             return fail("identify_outcomes-raised", exc=repr(e)[:300])
     if est is not None and not isinstance(est, Expression):
